@@ -325,6 +325,10 @@ def onOutputs (t0 : Tracker) (ex : Expect) (outs : List Bytes) : Tracker × List
             if !(i.outstanding.isEmpty || i.timedOut) then
               v := v ++ [⟨"C02", s!"client {cid} accepted while a query is unanswered and no timeout expired"⟩]
             if i.bang && i.vouched.isEmpty then v := v ++ [⟨"C02", s!"client {cid} accepted although it demanded +! and holds no account stamp"⟩]
+            -- `D` is the acceptance that carries no account: whatever a service said, the daemon itself
+            -- holds no stamp for this client at this point
+            if i.bang && !i.vouched.isEmpty && letter == 68 then
+              v := v ++ [⟨"C02", s!"client {cid} demanded +! and was accepted by a verdict that carries no account stamp"⟩]
             if i.refused then v := v ++ [⟨"C02", s!"client {cid} accepted although a service refused it"⟩]
             if letter == 82 then
               if i.vouched.isEmpty then v := v ++ [⟨"C05", s!"client {cid} reported with an account nobody vouched"⟩]
